@@ -126,7 +126,7 @@ def run_case(cfg, pool, items, offsets):
                 msg_ok[mi] = None
             elif msg_ok.get(mi, True) is not None:
                 msg_ok[mi] = msg_ok.get(mi, True) and gate
-            last = it["kind"] == "single" or (it["kind"] == "fastframe" and is_last(items, pos))
+            last = it["kind"] in ("single", "combined") or (it["kind"] == "fastframe" and is_last(items, pos))
             expect_msg = last and msg_ok[mi] is True
             if msg_ok[mi] is None:
                 if r is not None:
